@@ -139,6 +139,10 @@ def run_check(mod, pid, tier, seed, t0, skip_lean=False):
         mismatches = []
         broken.append({"kind": "driver", "name": "Driver.lean", "message": str(ex)[-600:]})
     for mm in mismatches:
+        if os.environ.get("FV_DEBUG"):
+            print("MISMATCH", str(mm.get("what"))[:700])
+            ctx.notes["dbg"] = ctx.notes.get("dbg", 0) + 1
+            json.dump(mm, open(os.path.join(C.WORK, f"mm_{pid}_{ctx.notes['dbg']}.json"), "w"), default=str)
         # mm: {"case":…, "impl":…, "model":…, "what":…, optional "violation": bool}
         ok, detail = (False, mm.get("detail")) if mm.get("violation") else mod.oracle(mm["case"])
         if not ok:
